@@ -57,6 +57,9 @@ def dims(tier):
         "fraction": [1.0, 0.5, 0.1, 0.999, 0.00000003, 0.3, 0.999999, 0.9999999],
         "fee": [1000, 0, 12345], "version": [1, 2], "locktime": [0, 500000],
         "flag": FLAGS, "signed": [True, False],
+        # the node's answer with the optional fields a real scantxoutset carries (tip height, per-output coinbase flag and
+        # height): first output an immature coinbase, last output an immature coinbase, all mature
+        "answer": ["plain", "coinbase-first", "coinbase-last", "coinbase-mature"],
     }
 
 
@@ -177,6 +180,12 @@ def run_send(C, seed, a):
     result = {"success": True, "total_amount": float(Decimal(total) / 100000000),
               "unspents": [{"txid": u["txid"], "vout": u["vout"], "amount": float(u["amount"]), "scriptPubKey": u["scriptPubKey"],
                             "desc": "x", "height": 1} for u in sc["utxos"]]}
+    ans = a.get("answer", "plain")
+    if ans != "plain":
+        result.update({"height": 150, "bestblock": "00" * 32, "txouts": 1234})
+        for i, u in enumerate(result["unspents"]):
+            cb = (ans == "coinbase-first" and i == 0) or (ans == "coinbase-last" and i == len(result["unspents"]) - 1) or ans == "coinbase-mature"
+            u.update({"coinbase": cb, "height": (10 if ans == "coinbase-mature" else 120) if cb else 40})
     calls = []
 
     def rpc(method, *params, **kw):
@@ -218,6 +227,9 @@ def chk_send(case):
             return []      # nothing (or less than nothing) left for the recipient after the fee: refusing is fine
         if a["signed"] and fam == "legacy" and a["flag"] & 3 == 3 and a["n_utxo"] > 1 and "SIGHASH_SINGLE" in out[1]:
             return []      # legacy SIGHASH_SINGLE on an input without a matching output cannot be signed meaningfully: refusing is fine
+        if a.get("answer") in ("coinbase-first", "coinbase-last"):
+            return []      # an output the network would not let be spent yet (immature coinbase) was reported: refusing is fine;
+                           # a transaction that IS built must still satisfy everything below
         why = ("raw-recipient" if a["recip"] == "raw" else "raw-sender-change" if a["sender"] == "multisig" and a["change"] == "none"
                else f"{fam}-signed" if a["signed"] else "unsigned")
         return [(f"C16/raised/{why}", f"send_tx raised {out[1]} ({tag})")]
